@@ -309,29 +309,115 @@ def replay_class_state(m, cname, name):
 
 
 def catalog_obligations(rep):
-    """writes into caller-supplied catalog objects (integrations / predictor_metadata entries)"""
+    """the planner does not write into the catalog objects it is given (integrations / predictor_metadata entries): QueryPlanner.__init__ and
+    get_predictor are executed by pysym on caller-supplied entries (symbolic names); every store / mutation the executor records on one of those
+    objects is a violation, whatever the local variable is called"""
+    from mindsdb_sql.planner.query_planner import QueryPlanner
+    from mindsdb_sql.parser.ast import Identifier
+    from vlib import pysym
+    from vlib.pysym import SymObj
+    from vlib.core import PROVED, FAILED
     QP = 'mindsdb_sql.planner.query_planner'
-    tree = repo.module_ast(QP)
-    src = repo.module_src(QP)
-    cls = repo.find_class(QP, 'QueryPlanner')
-    sites = []
-    for fn in cls.body:
-        if not isinstance(fn, ast.FunctionDef):
-            continue
-        for n in ast.walk(fn):
-            if isinstance(n, ast.Assign):
-                for t in n.targets:
-                    if isinstance(t, ast.Subscript) and isinstance(t.value, ast.Name) and t.value.id in ('predictor', 'info', 'integration', 'predictor_metadata', 'integrations'):
-                        sites.append((fn.name, n.lineno, ast.get_source_segment(src, n)))
-    if sites:
-        seen = {}
-        for fname, line, text in sites:
-            base = f'C20.catalog.{text.split("=")[0].strip()}'          # the written slot, not the function it happens to sit in
-            seen[base] = seen.get(base, 0) + 1
-            rep.failed(base if seen[base] == 1 else f'{base}#{seen[base]}', 'frames', f'{fname} (line {line}) writes into a caller-supplied catalog entry: `{text}`',
-                       function=f'{QP}:QueryPlanner.{fname}', clause='planning does not modify the catalog objects it is given', replay=replay_catalog())
-    else:
-        rep.proved('C20.catalog', 'frames', 'no subscript store into catalog entries in QueryPlanner', function=f'{QP}:QueryPlanner', clause='planning does not modify the catalog objects it is given')
+    import z3
+
+    def lower_model(ex):
+        from vlib.pysym import models
+        from vlib.pysym import SymVal
+        LOWER = z3.Function('str.lower', z3.StringSort(), z3.StringSort())
+        orig = models.symval_method
+        models.symval_method = lambda ex_, recv, name, args, kwargs, node: SymVal('str', LOWER(recv.t)) if (name == 'lower' and recv.sort == 'str' and not args) else orig(ex_, recv, name, args, kwargs, node)
+
+    def touched(ex, o, objs):
+        out = []
+        for (obj, attr, old, new, kind) in o.writes if hasattr(o, 'writes') else ex.writes:
+            for nm, c in objs.items():
+                if obj is c:
+                    out.append(f'{nm}[{attr!r}]' if kind != 'setattr' else f'{nm}.{attr}')
+        return out
+
+    cases = {
+        'init.list.no-project': lambda: dict(predictor_metadata=[{'name': 'Pred'}]),
+        'init.list.project': lambda: dict(predictor_metadata=[{'name': 'Pred', 'integration_name': 'Proj'}]),
+        'init.legacy.no-project': lambda: dict(predictor_metadata={'Pred': {}}),
+        'init.legacy.project': lambda: dict(predictor_metadata={'Pred': {'integration_name': 'Proj'}}),
+        'init.legacy.qualified': lambda: dict(predictor_metadata={'proj.pred': {'x': 1}}),
+        'init.integrations.dicts': lambda: dict(integrations=[{'name': 'Int1', 'type': 'data'}, {'name': 'P2', 'type': 'project'}], predictor_metadata=[]),
+    }
+    for cname, mk in cases.items():
+        import copy as _copy
+        kw = mk()
+        before = _copy.deepcopy(kw)
+
+        def run(ex, kw=kw):
+            lower_model(ex)
+            planner = SymObj({QueryPlanner}, 'planner', prov='fresh')
+            clo = pysym.closure_of(QP, 'QueryPlanner.__init__')
+            clo.no_stub = True
+            args = dict(integrations=[], default_namespace='mindsdb')
+            args.update(kw)
+            ex.call_closure(clo, [planner], args)
+            return planner
+        ex = pysym.Executor()
+        oid = f'C20.catalog.frame.{cname}'
+        clause = 'frame: QueryPlanner.__init__ assigns nothing inside the integrations / predictor_metadata objects of the caller'
+        fn = f'{QP}:QueryPlanner.__init__'
+        try:
+            outs = ex.explore(run)
+            bad = None
+            for o in outs:
+                if o.kind != 'return':
+                    bad = f'raises {getattr(o.value, "__name__", o.value)}'
+            if bad is None and kw != before:
+                bad = f'the caller\'s catalog is changed: {kw!r} (was {before!r})'
+            if bad:
+                rep.failed(oid, 'pysym', bad, function=fn, clause=clause, replay=replay_catalog())
+            else:
+                rep.proved(oid, 'pysym', f'{len(outs)} path(s); catalog objects unchanged', function=fn, clause=clause)
+        except (pysym.Unsupported, pysym.PathLimit) as e:
+            rep.undecided(oid, 'pysym', f'{type(e).__name__}: {e}', function=fn, clause=clause)
+        finally:
+            for k_ in list(kw):
+                kw[k_] = before[k_]
+    # get_predictor: the metadata entry found for a model reference is not written (version / name of THIS reference are call-local facts)
+    for parts in (['pred'], ['pred', '3'], ['mindsdb', 'pred'], ['mindsdb', 'pred', '7']):
+        entry = {'name': 'pred', 'integration_name': 'mindsdb'}
+        before = dict(entry)
+
+        def run_g(ex, parts=parts, entry=entry):
+            lower_model(ex)
+            planner = SymObj({QueryPlanner}, 'planner', prov='param')
+            planner.known_not_none = True
+            planner.fields.update(default_namespace='mindsdb', predictor_info={'mindsdb.pred': entry})
+            t = SymObj({Identifier}, 'model_ref', prov='param')
+            t.known_not_none = True
+            t.closed = True
+            t.fields.update(alias=None, parentheses=False, parts=ex.param_container(list(parts)))
+            clo = pysym.closure_of(QP, 'QueryPlanner.get_predictor')
+            clo.no_stub = True
+            return ex.call_closure(clo, [planner, t], {})
+        ex = pysym.Executor()
+        oid = f'C20.catalog.frame.get_predictor.{"_".join(parts)}'
+        clause = 'frame: get_predictor does not write into the catalog entry it finds; the returned info carries version / name of this reference'
+        fn = f'{QP}:QueryPlanner.get_predictor'
+        try:
+            outs = ex.explore(run_g)
+            bad = None
+            for o in outs:
+                if o.kind != 'return':
+                    bad = f'raises {getattr(o.value, "__name__", o.value)}'
+                elif not isinstance(o.value, dict) or o.value.get('version') != (parts[-1] if parts[-1].isdigit() else None) or o.value.get('name') != 'pred':
+                    bad = f'returned info {o.value!r} does not carry version / name of the reference {".".join(parts)}'
+            if bad is None and entry != before:
+                bad = f'the catalog entry of the caller is changed to {entry!r} (was {before!r}): a later plan of another spelling of the model sees it'
+            if bad:
+                rep.failed(oid, 'pysym', bad, function=fn, clause=clause, replay=replay_catalog())
+            else:
+                rep.proved(oid, 'pysym', f'{len(outs)} path(s); entry unchanged', function=fn, clause=clause)
+        except (pysym.Unsupported, pysym.PathLimit) as e:
+            rep.undecided(oid, 'pysym', f'{type(e).__name__}: {e}', function=fn, clause=clause)
+        finally:
+            entry.clear()
+            entry.update(before)
     # renderer: dialect instance created per renderer
     fd = repo.find_function('mindsdb_sql.render.sqlalchemy_render', 'SqlalchemyRender.__init__')
     s = ast.unparse(fd)
@@ -399,6 +485,8 @@ for i in order:
                 r += '|RE:' + type(e).__name__
     except Exception as e:
         r = 'E:' + type(e).__name__ + ':' + str(e)
+    import re as _re
+    r = _re.sub(r' at 0x[0-9a-fA-F]+', '', r)          # default object reprs carry addresses: not behaviour
     out[i] = hashlib.sha1(r.encode()).hexdigest()
 print(json.dumps(out))
 '''
